@@ -43,6 +43,11 @@ Definition spec_flat_fields (L : lcol) (fields : list string) : list (list val) 
   map (fun nm => match field_pos (lsch L) nm with Some k => concat (nth k (lcols L) []) | None => [] end) fields.
 Definition spec_lists_fields (L : lcol) (fields : list string) : list (list (list val)) :=
   map (fun nm => match field_pos (lsch L) nm with Some k => nth k (lcols L) [] | None => [] end) fields.
+(* the list view exactly: a missing row has NO list (null), a present row its list *)
+Definition with_missing (v : list bool) (col : list (list val)) : list (option (list val)) :=
+  map2 (fun (b : bool) l => if b then Some l else None) v col.
+Definition spec_lists_opt_fields (L : lcol) (fields : list string) : list (list (option (list val))) :=
+  map (with_missing (lvalidity L)) (spec_lists_fields L fields).
 
 (* ---------- C05: Python sequence semantics on a plain list of rows ---------- *)
 Definition py_index (n : nat) (z : Z) : option nat :=
